@@ -1,3 +1,4 @@
 import sys, os
 sys.path.insert(0, os.path.join(os.environ.get("VERIF_HOME", "/verif"), "engine"))
 import ch_bits
+import ch_stats
